@@ -1,6 +1,7 @@
 SPEC = {
-    'module': 'EV.Props.C08',
+    'module': 'EV.Props.C08audit',
     'theorems': ['EV.Mempool.C08_exact', 'EV.Mempool.C08_observables', 'EV.Mempool.C08_observables_inv',
+                 'EV.Mempool.refreshRound_quiet_exact',
                  'EV.Mempool.C08_touched', 'EV.Mempool.C08_touched_handed_over',
                  'EV.Mempool.Conflict.C08_counterexample_conflict',
                  # the index side of EnvQuiet, proved of the index model (EV/Props/C08lookup.lean)
@@ -39,6 +40,9 @@ SPEC = {
         'OP_RETURN-unspendable ones (MemPool does not apply the unspendable rule; DESIGN N1)',
         'the model EV/Model/Mempool.lean is tied to mempool.MemPool by differential execution, not by proof; the '
         'parsing of raw transactions (read_tx, hashX_from_script) is outside the model (C13)',
+        "C08_observables: the specification side reuses the model's per-transaction functions (mkTx, feeOf, balanceOf, summaryOf, utxosOf, touches); only the SET of transactions (and their input pairs) is characterised independently, the per-script-hash observables are not checked against an independent definition in Lean (they are, on the real class, by the Python oracle of suite mempool)",
+        '_refresh_hashes level (audit): C08_touched_handed_over / C09_height_guard / C09_loop have the shape "nothing emitted or ..." and also hold of a loop that never emits; the positive direction is refreshRound_quiet_exact (EV/Props/C08audit.lean): a round in a quiet environment whose three heights agree DOES emit exactly once, starts a fresh touched, and the view handed over is the exact one of C08_exact; its examples include a NON-EMPTY MpInv state and a second round from it (the in-tree witness of MpInv was the empty tracker)',
+        'the db_height() guard and lookup_utxos are unrelated parameters of the model (dbHeight, lookup): that a guard passing at height h implies lookups answered from height h is ASSUMED (EnvQuiet).  In the code DB.state is assigned inside `with utxo_db.write_batch()` in the worker thread (db.py flush_dbs), i.e. before the batch commits, so the guard can pass at h while lookups still answer from h-1; the suite couples the two atomically (code reading, not executed)',
     ],
     'design_ref': 'DESIGN.md §6 C08',
     'level_text': 'proof: exactness of the mempool view after a quiet refresh (transaction set with true input '
